@@ -279,10 +279,29 @@ type Dict map[string]string
 
 func (d Dict) Get(k string) string { return strings.TrimSuffix(d["b"], "[b]") + ".Get(" + k + ")" } // b is in every recipe
 
+// One name at several depths of the embedding: Go selects the shallowest one, whatever the order of declaration, and
+// a name that occurs twice at the shallowest depth selects nothing. x.ID is Tag.ID (depth 1; Deep.Audit.ID lies at
+// depth 2 and is declared earlier), x.Rev is Deep.Audit.Rev (alone, two levels down), x.Dup is ambiguous (Deep.Dup and
+// Tag.Dup, both at depth 1) and so is no member at all; x.Deep.Dup, x.Tag.Dup, x.Deep.ID, x.Audit.ID spell the others.
+type Audit struct {
+	ID  string
+	Rev string
+}
+type Deep struct {
+	Audit
+	Dup string
+}
+type Tag struct {
+	ID  string
+	Dup string
+}
+
 type Ext struct {
 	Base
 	ubase
 	*PBase
+	Deep
+	Tag
 	Name string
 	Grid [][]string
 	MM   map[string]map[string]string
@@ -311,6 +330,8 @@ func mkExt(p string, v, d int) Ext {
 	x := Ext{p: p, v: v, d: max(d, 0), Name: p + ".Name"}
 	x.Base = Base{p: p, BName: p + ".BName", Name: p + ".Base.Name", Tags: []string{p + ".Tags[0]", p + ".Tags[1]"}}
 	x.ubase = ubase{up: p, UName: p + ".UName"}
+	x.Deep = Deep{Audit: Audit{ID: p + ".Deep.ID", Rev: p + ".Rev"}, Dup: p + ".Deep.Dup"}
+	x.Tag = Tag{ID: p + ".ID", Dup: p + ".Tag.Dup"}
 	if v == 0 {
 		x.PBase = &PBase{pp: p, PBName: p + ".PBName", PIn: Inner{Name: p + ".PIn.Name", p: p + ".PIn"}}
 	}
@@ -355,6 +376,11 @@ func mkExt(p string, v, d int) Ext {
 // embedded structs a promoted member was reached through (x.Base.BName and
 // x.BName are the same leaf; Base.Name, shadowed, keeps its long spelling).
 func canonLeaf(path string) string {
+	// the members of Deep, Audit and Tag: Audit.ID is x.Deep.ID, Audit.Rev is x.Rev, Tag.ID is x.ID
+	path = strings.ReplaceAll(path, ".Deep.Audit.", ".Deep.")
+	path = strings.ReplaceAll(path, ".Audit.", ".Deep.")
+	path = strings.ReplaceAll(path, ".Deep.Rev", ".Rev")
+	path = strings.ReplaceAll(path, ".Tag.ID", ".ID")
 	for _, e := range []string{".Base", ".ubase", ".PBase"} {
 		from := 0
 		for {
